@@ -182,7 +182,8 @@ impl Session {
                 if let Some(port) = encrypted_data.f_port()
                     && port > 0
                 {
-                    self.rx_app_cnt += 1;
+                    // RxAppCnt is a 16-bit counter of the certification protocol: it wraps
+                    self.rx_app_cnt = self.rx_app_cnt.wrapping_add(1);
                 }
                 // We can safely unwrap here because we already validated the MIC
                 let decrypted = DecryptedDataPayload::decrypt_in_place(
